@@ -91,7 +91,7 @@ def run(ctx):
     ctx.rule = ("accepted inputs reached (a) by mutating valid SOME/IP messages, SD payloads, SD entries and SD options (bit flips, field corruption, "
                 "option types 0x00-0xFF, protocol numbers 0-255, unknown flag bits, non-zero reserved bytes) and (b) by an independent non-canonical "
                 "SD encoder in the harness (unshared duplicates, permuted arrays, overlapping runs, unreferenced options, zero-count indexes, garbage "
-                "after config terminators) and hand-written configuration options (k=v, k=, k, k=v=w) and hand-written IP options of all kinds of a family for one address / protocol / port; for every accepted input the implementation's decode/encode/decode cycle is checked and each step "
+                "after config terminators) and hand-written configuration options (k=v, k=, k, k=v=w) and hand-written IP options of all kinds of a family for one address / protocol / port, hand-written entries with every single bit of their last word; for every accepted input the implementation's decode/encode/decode cycle is checked and each step "
                 "compared with the model; non-trivial = distinct accepted input")
     ctx.assumptions = ["inputs are byte strings; SD entries are decoded with the number of options of their message"]
     ctx._cases, ctx._impl, ctx._descr = [], [], []
@@ -169,5 +169,17 @@ def run(ctx):
             sb = bytes([0xC0, 0, 0, 0]) + struct.pack(">I", len(eb)) + eb + struct.pack(">I", len(obs)) + obs
             st = cycle(ctx, "SD message", sb, H.SOMEIPSDHeader.parse, lambda v: v.build(), conv.s_sd, (208, 207))
             ctx.case(("sd-kinds", k, sb), nontrivial=st == "accepted", kind="sd-ip-option-kinds-" + st)
+    # hand-written entries of every type with each single bit of the last word set on top of a small value (the reserved
+    # bits of eventgroup entries): what the decoder accepts, the encoder must take back
+    for ty in (0, 1, 6, 7):
+        for bit in range(32):
+            for base in ((0, 5), (3 << 16, 0x1234)):
+                val = (1 << bit) | (base[0] if ty in (6, 7) else 0) | base[1]
+                ebs = bytes([ty, 0, 0, 0]) + struct.pack(">HHB", 0x1111, 1, 1) + (3).to_bytes(3, "big") + struct.pack(">I", val & 0xFFFFFFFF)
+                st = cycle(ctx, "SD entry", ebs, lambda x: H.SOMEIPSDEntry.parse(x, 0), lambda v: v.build(), conv.s_entry, (204, 203), extra=0)
+                ctx.case(("entry-bit", ty, bit, base), nontrivial=st == "accepted", kind="entry-last-word-bit-" + st)
+                sb = bytes([0xC0, 0, 0, 0]) + struct.pack(">I", 16) + ebs + struct.pack(">I", 0)
+                st = cycle(ctx, "SD message", sb, H.SOMEIPSDHeader.parse, lambda v: v.build(), conv.s_sd, (208, 207))
+                ctx.case(("sd-entry-bit", ty, bit, base), nontrivial=st == "accepted", kind="sd-entry-last-word-bit-" + st)
     outs = compare(ctx, ctx._cases, ctx._impl, "decoder/encoder differs from the model", lambda i: repr(ctx._descr[i]))
     incoq_crosscheck(ctx, ctx._cases, outs, limit=100 if quick else 400)
